@@ -192,3 +192,633 @@ Proof.
 Qed.
 
 End Reqs.
+
+(* ---------- how many, how large ---------- *)
+Section Bounds.
+Variable lo : lopts.
+
+(* what a request of one step can be: (1) the buffer for the body of the record being read (only
+   when the caller's buffer is too small), (2) the scratch buffer for a chunk's compression name
+   plus the 8-byte payload length (only when the retained 32-byte scratch is too small; it fits in the
+   record), (3) the buffer for the decompressed chunk of a validating lexer, twice the declared
+   uncompressed size (only when the retained one is too small) *)
+Definition req_ok (pcap bufcap ubuf : N) (b : bytes) (n : N) : Prop :=
+  n < max_int32 /\
+  ((n = rec_len b /\ pcap < n /\ rec_op b <> OpAttachment) \/
+   (rec_op b = OpChunk /\ lo_emit_chunks lo = false /\
+    n = chunk_clen (drop 9 b) + 8 /\ n + 32 <= rec_len b /\ bufcap < n) \/
+   (rec_op b = OpChunk /\ lo_emit_chunks lo = false /\ lo_validate lo = true /\
+    n = 2 * chunk_usize (drop 9 b) /\ ubuf < chunk_usize (drop 9 b) /\
+    (0 < lo_max_chunk lo -> chunk_usize (drop 9 b) <= lo_max_chunk lo))).
+
+Lemma ubuf_reqs_cases ubuf usize :
+  ubuf_reqs lo ubuf usize = [] \/
+  (ubuf_reqs lo ubuf usize = [usize * 2] /\ ubuf < usize /\ usize * 2 < max_int32 /\
+   (0 < lo_max_chunk lo -> usize <= lo_max_chunk lo)).
+Proof.
+  unfold ubuf_reqs.
+  destruct ((0 <? lo_max_chunk lo) && (lo_max_chunk lo <? usize)) eqn:E1; [left; reflexivity|].
+  destruct ((ubuf <? usize) && (max_int32 <? usize)) eqn:E2; [left; reflexivity|].
+  destruct ((ubuf <? usize) && negb (usize * 2 <? max_int32)) eqn:E3; [left; reflexivity|].
+  destruct (ubuf <? usize) eqn:E4; [right|left; reflexivity].
+  split; [reflexivity|]. repeat split; lia.
+Qed.
+
+(* chunk_reqs = (chunk buffer request)? ++ (scratch request)? *)
+Lemma chunk_reqs_cases rl bufcap ubuf c :
+  exists u g, chunk_reqs lo rl bufcap ubuf c = u ++ g /\
+    (g = [] \/ (g = [chunk_clen c + 8] /\ chunk_clen c + 8 < max_int32 /\ chunk_clen c + 8 + 32 <= rl /\
+                bufcap < chunk_clen c + 8)) /\
+    (u = [] \/ (u = [chunk_usize c * 2] /\ lo_validate lo = true /\ ubuf < chunk_usize c /\
+                chunk_usize c * 2 < max_int32 /\ (0 < lo_max_chunk lo -> chunk_usize c <= lo_max_chunk lo))).
+Proof.
+  unfold chunk_reqs.
+  destruct (32 <=? blen c); [|exists [], []; auto].
+  set (need := chunk_clen c + 8).
+  destruct (rl <? 32 + need) eqn:Erl; [exists [], []; auto|].
+  destruct ((bufcap <? need) && negb (need <? max_int32)) eqn:Eg; [exists [], []; auto|].
+  set (g := if bufcap <? need then [need] else []).
+  assert (Hg : g = [] \/ (g = [need] /\ need < max_int32 /\ need + 32 <= rl /\ bufcap < need)).
+  { subst g. destruct (bufcap <? need) eqn:Eb; [right|left; reflexivity].
+    split; [reflexivity|]. cbn [andb] in Eg. repeat split; lia. }
+  clearbody g.
+  destruct (need <=? blen (drop 32 c)); [|exists [], g; auto].
+  destruct (negb (lc_supported lo _)); [exists [], g; auto|].
+  destruct (negb (lo_validate lo)) eqn:Ev; [exists [], g; auto|].
+  exists (ubuf_reqs lo ubuf (chunk_usize c)), g. split; [reflexivity|]. split; [exact Hg|].
+  destruct (ubuf_reqs_cases ubuf (chunk_usize c)) as [H|[H1 [H2 [H3 H4]]]]; [left; exact H|right].
+  split; [exact H1|]. split; [destruct (lo_validate lo); [reflexivity|discriminate]|]. auto.
+Qed.
+
+Theorem rec_reqs_ok pcap bufcap ubuf inck b :
+  Forall (req_ok pcap bufcap ubuf b) (rec_reqs lo pcap bufcap ubuf inck b).
+Proof.
+  unfold rec_reqs.
+  destruct (9 <=? blen b); [|constructor].
+  destruct ((0 <? lo_max_record lo) && (lo_max_record lo <? rec_len b)); [constructor|].
+  destruct (Byte.eqb (rec_op b) OpChunk && negb (lo_emit_chunks lo)) eqn:Eck.
+  { destruct inck; [constructor|].
+    apply andb_true_iff in Eck. destruct Eck as [Eop Eem]. apply byte_eqb_eq in Eop.
+    assert (Hem : lo_emit_chunks lo = false) by (destruct (lo_emit_chunks lo); [discriminate|reflexivity]).
+    destruct (chunk_reqs_cases (rec_len b) bufcap ubuf (drop 9 b)) as (u & g & -> & Hg & Hu).
+    apply Forall_app. split.
+    - destruct Hu as [->|(-> & H1 & H2 & H3 & H4)]; [constructor|].
+      apply Forall_cons; [|constructor]. split; [lia|]. right; right. repeat split; auto; lia.
+    - destruct Hg as [->|(-> & H1 & H2 & H3)]; [constructor|].
+      apply Forall_cons; [|constructor]. split; [lia|]. right; left. repeat split; auto; lia. }
+  destruct (Byte.eqb (rec_op b) OpAttachment) eqn:Eat; [constructor|].
+  destruct ((pcap <? rec_len b) && (rec_len b <? max_int32)) eqn:Ep; [|constructor].
+  apply Forall_cons; [|constructor]. split; [lia|]. left. split; [reflexivity|]. split; [lia|].
+  intros H. rewrite H in Eat. discriminate.
+Qed.
+
+(* at most two requests per step; at most one unless a validating lexer opens a chunk; none for an
+   attachment record; a non-validating (streaming) lexer opening a chunk asks at most for the scratch *)
+Theorem rec_reqs_count pcap bufcap ubuf inck b :
+  (length (rec_reqs lo pcap bufcap ubuf inck b) <= 2)%nat /\
+  (rec_op b <> OpChunk \/ lo_emit_chunks lo = true \/ lo_validate lo = false ->
+     (length (rec_reqs lo pcap bufcap ubuf inck b) <= 1)%nat) /\
+  (rec_op b = OpAttachment -> rec_reqs lo pcap bufcap ubuf inck b = []) /\
+  (rec_op b = OpChunk -> lo_emit_chunks lo = false -> lo_validate lo = false ->
+     Forall (fun n => n = chunk_clen (drop 9 b) + 8) (rec_reqs lo pcap bufcap ubuf inck b)).
+Proof.
+  unfold rec_reqs.
+  destruct (9 <=? blen b); [|cbn; repeat split; auto; lia].
+  destruct ((0 <? lo_max_record lo) && (lo_max_record lo <? rec_len b)); [cbn; repeat split; auto; lia|].
+  destruct (Byte.eqb (rec_op b) OpChunk && negb (lo_emit_chunks lo)) eqn:Eck.
+  { apply andb_true_iff in Eck. destruct Eck as [Eop Eem]. apply byte_eqb_eq in Eop.
+    assert (Hem : lo_emit_chunks lo = false) by (destruct (lo_emit_chunks lo); [discriminate|reflexivity]).
+    destruct inck; [cbn; repeat split; auto; lia|].
+    destruct (chunk_reqs_cases (rec_len b) bufcap ubuf (drop 9 b)) as (u & g & -> & Hg & Hu).
+    assert (Lg : (length g <= 1)%nat) by (destruct Hg as [->|[-> _]]; cbn; lia).
+    assert (Lu : (length u <= 1)%nat) by (destruct Hu as [->|[-> _]]; cbn; lia).
+    rewrite app_length. split; [lia|]. split; [|split].
+    - intros [H|[H|H]]; [contradiction|congruence|].
+      destruct Hu as [->|(_ & Hv & _)]; [cbn; lia|congruence].
+    - intros H. rewrite H in Eop. discriminate.
+    - intros _ _ Hv. destruct Hu as [->|(_ & Hv' & _)]; [|congruence]. cbn [app].
+      destruct Hg as [->|[-> _]]; repeat constructor. }
+  destruct (Byte.eqb (rec_op b) OpAttachment) eqn:Eat; [cbn; repeat split; auto; lia|].
+  assert (Hop : rec_op b <> OpAttachment).
+  { intros H. rewrite H in Eat. discriminate. }
+  destruct ((pcap <? rec_len b) && (rec_len b <? max_int32)); cbn [length]; repeat split; auto; try lia;
+    try contradiction.
+  intros Hop2 Hem _. rewrite Hop2, Hem in Eck. discriminate.
+Qed.
+
+End Bounds.
+
+(* ---------- the requests of a step depend on the bytes of the CURRENT record only ---------- *)
+Lemma blen_take n b : blen (take n b) = N.min n (blen b).
+Proof. unfold blen. rewrite Source.take_length. unfold blen. lia. Qed.
+
+Lemma take_take n m b : take n (take m b) = take (N.min n m) b.
+Proof.
+  assert (H : blen (firstn (N.to_nat (N.min m (blen b))) b) = N.min m (blen b))
+    by (unfold blen; rewrite firstn_length; lia).
+  unfold take. rewrite H, firstn_firstn. f_equal. lia.
+Qed.
+
+Lemma drop_take n m b : drop n (take m b) = take (m - n) (drop n b).
+Proof.
+  destruct (N.le_gt_cases n m) as [L|L].
+  - assert (H : blen (firstn (N.to_nat (N.min m (blen b))) b) = N.min m (blen b))
+      by (unfold blen; rewrite firstn_length; lia).
+    assert (H2 : blen (skipn (N.to_nat (N.min n (blen b))) b) = blen b - N.min n (blen b))
+      by (unfold blen; rewrite skipn_length; lia).
+    unfold take, drop. rewrite H, H2, skipn_firstn_comm.
+    replace (N.to_nat (N.min n (N.min m (blen b)))) with (N.to_nat (N.min n (blen b))) by lia.
+    f_equal. lia.
+  - rewrite drop_ge by (rewrite blen_take; lia).
+    replace (m - n) with 0 by lia. unfold take. rewrite N.min_l by lia. reflexivity.
+Qed.
+
+Section Trunc.
+Variable lo : lopts.
+
+Lemma chunk_reqs_trunc rl bufcap ubuf c :
+  chunk_reqs lo rl bufcap ubuf (take rl c) = chunk_reqs lo rl bufcap ubuf c.
+Proof.
+  unfold chunk_reqs, chunk_clen, chunk_usize.
+  destruct (N.lt_ge_cases rl 32) as [L|L].
+  - replace (32 <=? blen (take rl c)) with false by (rewrite blen_take; lia).
+    destruct (32 <=? blen c); [|reflexivity].
+    set (need := unle _ + 8). replace (rl <? 32 + need) with true by lia. reflexivity.
+  - replace (32 <=? blen (take rl c)) with (32 <=? blen c) by (rewrite blen_take; lia).
+    rewrite take_take, (N.min_l 32 rl) by lia.
+    destruct (32 <=? blen c); [|reflexivity].
+    set (need := unle (sub (take 32 c) 28 4) + 8).
+    destruct (rl <? 32 + need) eqn:Erl; [reflexivity|].
+    destruct ((bufcap <? need) && negb (need <? max_int32)); [reflexivity|].
+    rewrite drop_take.
+    replace (need <=? blen (take (rl - 32) (drop 32 c))) with (need <=? blen (drop 32 c))
+      by (rewrite blen_take; lia).
+    rewrite (take_take need (rl - 32)), (N.min_l need (rl - 32)) by lia. reflexivity.
+Qed.
+
+(* the record at the front of b is its first 9 + rec_len b bytes: cutting everything behind it off
+   (all later records) leaves the requests of the step unchanged *)
+Theorem rec_reqs_trunc pcap bufcap ubuf inck b :
+  rec_reqs lo pcap bufcap ubuf inck (take (9 + rec_len b) b) = rec_reqs lo pcap bufcap ubuf inck b.
+Proof.
+  destruct (N.lt_ge_cases (blen b) 9) as [L|L].
+  { rewrite Source.take_all by lia. reflexivity. }
+  set (rl := rec_len b).
+  assert (H1 : rec_len (take (9 + rl) b) = rl).
+  { unfold rec_len. rewrite take_take, N.min_l by lia. reflexivity. }
+  assert (H2 : rec_op (take (9 + rl) b) = rec_op b).
+  { unfold rec_op. rewrite take_take, N.min_l by lia. reflexivity. }
+  unfold rec_reqs. rewrite H1, H2. fold rl.
+  replace (9 <=? blen (take (9 + rl) b)) with (9 <=? blen b) by (rewrite blen_take; lia).
+  rewrite drop_take. replace (9 + rl - 9) with rl by lia. rewrite chunk_reqs_trunc. reflexivity.
+Qed.
+
+End Trunc.
+
+(* ====================================================================================== *)
+(* Part B: attachments through the lexer                                                   *)
+(* ====================================================================================== *)
+
+(* result of a call of Next without the event list *)
+Definition next_forget (x : outcome (list event * nres * lstate)) : outcome (nres * lstate) :=
+  match x with
+  | Ok (_, r, s) => Ok (r, s)
+  | Err e => Err e | Panic p => Panic p | Exit p => Exit p | OutOfFuel => OutOfFuel
+  end.
+Definition sres_forget (x : sres) : option nres * lstate :=
+  match x with SDone _ r s => (Some r, s) | SCont s _ => (None, s) end.
+
+Section AttLex.
+Variable lo : lopts.
+Variable dstream : doracle.
+
+(* B1: an attachment record adds NO request to the log, whatever its declared length, its content,
+   the callback mode and the state of the source *)
+Theorem att_step_no_request pcap s evs :
+  rec_op (r_buf (cur s)) = OpAttachment ->
+  lx_allocs (step_state (lex_step lo dstream pcap s evs)) = lx_allocs s.
+Proof.
+  intros H. rewrite lex_step_requests.
+  destruct (rec_reqs_count lo pcap (lx_bufcap s) (lx_ubuf s) (is_in_chunk s) (r_buf (cur s))) as (_ & _ & H3 & _).
+  rewrite (H3 H). reflexivity.
+Qed.
+
+(* B2: the data bytes handed to the callback are the ones it asked for: at most k under CbPartial k,
+   no callback at all under CbNone *)
+Lemma att_cb_partial_data k lim lt ct name media ds o5 :
+  blen (ao_data (fst (att_cb lo (CbPartial k) lim lt ct name media ds o5))) <= N.of_nat k.
+Proof.
+  unfold att_cb. cbv zeta.
+  match goal with |- context[let '(_, _) := ?X in _] => destruct X as [pc pos'] end.
+  cbn [fst ao_data]. unfold blen. rewrite Source.take_length. lia.
+Qed.
+
+Lemma do_attachment_partial_data rl r k ev oe r' :
+  lo_cb lo = CbPartial k -> do_attachment lo rl r = (ev, oe, r') ->
+  match ev with Some (EvAttachment ob) => blen (ao_data ob) <= N.of_nat k | _ => True end.
+Proof.
+  intros Hcb. rewrite do_attachment_cb by congruence.
+  destruct (att_parse (limited rl r)) as [[[[[[lt ct] name] media] ds] o5]| | | |];
+    try (intros H; inversion H; exact I).
+  rewrite Hcb. pose proof (att_cb_partial_data k (limited rl r) lt ct name media ds o5) as Hk.
+  destruct (att_cb _ _ _ _ _ _ _ _ _) as [ob consumed]. cbn [fst] in Hk. cbv zeta.
+  destruct (rd_skip _ _) as [e2 r2]. intros H; inversion H; subst; clear H. exact Hk.
+Qed.
+
+(* B3: after an attachment record the lexer is in the same state whatever the record contained *)
+Definition att_body_ok (body : bytes) : Prop :=
+  blen body < two63 /\ len_ok lo (blen body) /\
+  (lo_cb lo = CbNone \/ exists v, att_parse (body, None) = Ok v).
+
+Lemma skipn_app_le {A} n (a t : list A) : (n <= length a)%nat -> skipn n (a ++ t) = skipn n a ++ t.
+Proof. intros H. rewrite skipn_app. replace (n - length a)%nat with 0%nat by lia. reflexivity. Qed.
+
+Lemma do_attachment_whole body rest e sk : lo_cb lo <> CbFail -> att_body_ok body ->
+  exists ev, do_attachment lo (blen body) (rd (body ++ rest) e sk) = (ev, None, rd rest e sk).
+Proof.
+  intros Hnf (_ & _ & Hp). destruct Hp as [Hcb|[v Hv]].
+  { rewrite do_attachment_none by exact Hcb. rewrite rd_skip_exact. eexists; reflexivity. }
+  destruct (lo_cb lo) eqn:Ecb.
+  { rewrite do_attachment_none by exact Ecb. rewrite rd_skip_exact. eexists; reflexivity. }
+  3:{ contradiction. }
+  all: rewrite do_attachment_cb by congruence;
+    assert (Hlim : limited (blen body) (rd (body ++ rest) e sk) = (body, None))
+      by (unfold limited, rd; cbn [r_buf r_end]; rewrite LexerFactsB.blen_app;
+          destruct (N.leb_spec (blen body) (blen body + blen rest)); [|lia];
+          rewrite take_app_exact; reflexivity);
+    rewrite Hlim, Hv; destruct v as [[[[[lt ct] name] media] ds] o5]; rewrite Ecb;
+    pose proof (att_parse_ok _ _ _ _ _ _ _ _ Hv) as Ho;
+    pose proof (att_cb_consumed lo (lo_cb lo) body None lt ct name media ds o5 Ho) as Hc;
+    rewrite Ecb in Hc;
+    match goal with |- context[att_cb ?a ?b ?c ?d ?f ?g ?h ?i ?j] =>
+      destruct (att_cb a b c d f g h i j) as [ob consumed] eqn:Ea end;
+    assert (Hc' : (consumed <= length body)%nat)
+      by (change consumed with (snd (ob, consumed)); rewrite <- Ea; exact Hc);
+    clear Hc; rename Hc' into Hc; cbv zeta; unfold rd at 1; cbn [r_buf r_end r_seek];
+    rewrite skipn_app_le by exact Hc;
+    replace (blen body - N.of_nat consumed) with (blen (skipn consumed body))
+      by (unfold blen; rewrite skipn_length; lia);
+    fold (rd (skipn consumed body ++ rest) e sk); rewrite rd_skip_exact; eexists; reflexivity.
+Qed.
+
+Lemma set_cur_set_cur r r' s : set_cur r' (set_cur r s) = set_cur r' s.
+Proof. unfold set_cur. destruct (lx_chunk s) eqn:E; rsimpl; rewrite ?E; reflexivity. Qed.
+
+Lemma lex_step_attachment pcap s evs body rest e sk :
+  lo_cb lo <> CbFail -> att_body_ok body ->
+  cur s = rd (frame OpAttachment body ++ rest) e sk ->
+  exists ev, lex_step lo dstream pcap s evs = SCont (set_cur (rd rest e sk) s) (evs ++ ev).
+Proof.
+  intros Hnf Hok Hcur. pose proof Hok as (Hlen & Hmax & _).
+  destruct (do_attachment_whole body rest e sk Hnf Hok) as [ev Hd].
+  unfold lex_step. rewrite Hcur. unfold frame. rewrite <- app_assoc.
+  rewrite (rd_full_exact 9 (frame_head OpAttachment (blen body))) by (symmetry; apply frame_head_blen).
+  unfold frame_head. cbv beta iota zeta. cbn [skipn].
+  rewrite unle_u64 by (unfold two63, two64 in *; lia).
+  unfold len_ok in Hmax. rewrite Hmax.
+  change (Byte.eqb OpAttachment OpChunk) with false. cbn [andb].
+  change (Byte.eqb OpAttachment OpAttachment) with true. cbv iota.
+  destruct (N.ltb_spec 9223372036854775807 (blen body)); [unfold two63 in Hlen; lia|].
+  rewrite cur_set_cur, Hd, set_cur_set_cur.
+  destruct ev as [ev|]; [exists [ev]|exists []; rewrite app_nil_r]; reflexivity.
+Qed.
+
+Theorem att_step_same_state pcap s evs body1 body2 rest e sk :
+  lo_cb lo <> CbFail -> att_body_ok body1 -> att_body_ok body2 ->
+  exists ev1 ev2,
+    lex_step lo dstream pcap (set_cur (rd (frame OpAttachment body1 ++ rest) e sk) s) evs
+      = SCont (set_cur (rd rest e sk) s) (evs ++ ev1) /\
+    lex_step lo dstream pcap (set_cur (rd (frame OpAttachment body2 ++ rest) e sk) s) evs
+      = SCont (set_cur (rd rest e sk) s) (evs ++ ev2) /\
+    lx_allocs (set_cur (rd rest e sk) s) = lx_allocs s.
+Proof.
+  intros Hnf H1 H2.
+  destruct (lex_step_attachment pcap (set_cur (rd (frame OpAttachment body1 ++ rest) e sk) s) evs
+              body1 rest e sk Hnf H1 (cur_set_cur _ _)) as [ev1 E1].
+  destruct (lex_step_attachment pcap (set_cur (rd (frame OpAttachment body2 ++ rest) e sk) s) evs
+              body2 rest e sk Hnf H2 (cur_set_cur _ _)) as [ev2 E2].
+  rewrite set_cur_set_cur in E1, E2. exists ev1, ev2. split; [exact E1|]. split; [exact E2|].
+  apply allocs_set_cur.
+Qed.
+
+(* the events collected so far do not influence anything but the event list *)
+Lemma lex_step_forget pcap s evs evs0 :
+  sres_forget (lex_step lo dstream pcap s evs) = sres_forget (lex_step lo dstream pcap s evs0).
+Proof.
+  unfold lex_step. destruct (rd_full 9 (cur s)) as [[hd x] r1].
+  destruct x as [x|].
+  { destruct (_ && (_ || _)); [reflexivity|]. destruct (_ || _); [destruct (_ && _)|]; reflexivity. }
+  destruct (_ && (_ <? _)); [reflexivity|].
+  destruct (_ && negb (lo_emit_chunks lo)).
+  { destruct (load_chunk _ _ _ _) as [[x|] s2]; [destruct (lo_emit_invalid lo && _)|]; reflexivity. }
+  destruct (Byte.eqb _ OpAttachment).
+  { destruct (9223372036854775807 <? _); [reflexivity|].
+    destruct (do_attachment _ _ _) as [[ev e2] r2]. destruct e2; reflexivity. }
+  destruct (_ && negb _); [reflexivity|].
+  destruct (rd_full _ _) as [[body x] r3].
+  destruct x as [x|]; [destruct x; reflexivity|].
+  destruct (known_op _); [reflexivity|]. destruct (Byte.eqb _ x00); reflexivity.
+Qed.
+
+Lemma lex_next_forget : forall f pcap s evs evs0,
+  next_forget (lex_next lo dstream f pcap s evs) = next_forget (lex_next lo dstream f pcap s evs0).
+Proof.
+  induction f as [|f IH]; intros pcap s evs evs0; [reflexivity|].
+  rewrite !lex_next_S. pose proof (lex_step_forget pcap s evs evs0) as H.
+  destruct (lex_step lo dstream pcap s evs) as [a b c|s1 e1];
+    destruct (lex_step lo dstream pcap s evs0) as [a' b' c'|s1' e1']; cbn [sres_forget] in H;
+    inversion H; subst; [reflexivity|apply IH].
+Qed.
+
+(* a whole call of Next positioned at either record: same result, same final state - in particular
+   the same allocation log - only the attachment event differs *)
+Theorem att_next_same f pcap s evs body1 body2 rest e sk :
+  lo_cb lo <> CbFail -> att_body_ok body1 -> att_body_ok body2 ->
+  next_forget (lex_next lo dstream f pcap (set_cur (rd (frame OpAttachment body1 ++ rest) e sk) s) evs) =
+  next_forget (lex_next lo dstream f pcap (set_cur (rd (frame OpAttachment body2 ++ rest) e sk) s) evs).
+Proof.
+  intros Hnf H1 H2. destruct f as [|f]; [reflexivity|].
+  destruct (att_step_same_state pcap s evs body1 body2 rest e sk Hnf H1 H2) as (ev1 & ev2 & E1 & E2 & _).
+  rewrite !lex_next_S, E1, E2. apply lex_next_forget.
+Qed.
+
+Corollary att_next_same_allocs f pcap s evs body1 body2 rest e sk evs1 res1 t1 evs2 res2 t2 :
+  lo_cb lo <> CbFail -> att_body_ok body1 -> att_body_ok body2 ->
+  lex_next lo dstream f pcap (set_cur (rd (frame OpAttachment body1 ++ rest) e sk) s) evs = Ok (evs1, res1, t1) ->
+  lex_next lo dstream f pcap (set_cur (rd (frame OpAttachment body2 ++ rest) e sk) s) evs = Ok (evs2, res2, t2) ->
+  res1 = res2 /\ t1 = t2 /\ lx_allocs t1 = lx_allocs t2.
+Proof.
+  intros Hnf H1 H2 E1 E2.
+  pose proof (att_next_same f pcap s evs body1 body2 rest e sk Hnf H1 H2) as H.
+  rewrite E1, E2 in H. cbn [next_forget] in H. inversion H; subst. auto.
+Qed.
+
+(* well-formed attachment records satisfy att_body_ok: any data, any crc, any declared data size *)
+Definition att_fields_ok (a : attachment) : Prop :=
+  a_log a < two64 /\ a_create a < two64 /\ blen (a_name a) < two32 /\ blen (a_media a) < two32 /\
+  a_size a < two64.
+
+Lemma att_parse_fields a tail en : att_fields_ok a ->
+  att_parse ((enc_attachment_fields a ++ tail) : bytes, en) =
+  Ok (a_log a, a_create a, a_name a, a_media a, a_size a, length (enc_attachment_fields a)).
+Proof.
+  intros (W1 & W2 & W3 & W4 & W5).
+  set (body := (enc_attachment_fields a ++ tail) : bytes).
+  assert (H : skipn 0 body = u64 (a_log a) ++ u64 (a_create a) ++ pstr (a_name a) ++ pstr (a_media a)
+                             ++ u64 (a_size a) ++ tail).
+  { unfold body, enc_attachment_fields. rewrite <- !app_assoc. reflexivity. }
+  destruct (lim_read_step 8 body en _ _ _ H (u64_length _)) as [E1 S1]; [lia|].
+  destruct (lim_read_step 8 body en _ _ _ S1 (u64_length _)) as [E2 S2]; [lia|].
+  destruct (lim_pstr_step body en _ _ _ S2 W3) as [E3 S3].
+  destruct (lim_pstr_step body en _ _ _ S3 W4) as [E4 S4].
+  destruct (lim_read_step 8 body en _ _ _ S4 (u64_length _)) as [E5 S5]; [lia|].
+  unfold att_parse. rewrite E1. cbn [bind]. rewrite E2. cbn [bind]. rewrite E3. cbn [bind].
+  rewrite E4. cbn [bind]. rewrite E5. cbn [bind].
+  rewrite !unle_u64 by assumption.
+  replace (length (enc_attachment_fields a))
+    with (0 + 8 + 8 + 4 + length (a_name a) + 4 + length (a_media a) + 8)%nat; [reflexivity|].
+  unfold enc_attachment_fields. rewrite !app_length, !pstr_length, !u64_length. lia.
+Qed.
+
+Lemma attach_body_ok a data crc : att_fields_ok a ->
+  blen (attach_body a data crc) < two63 -> len_ok lo (blen (attach_body a data crc)) ->
+  att_body_ok (attach_body a data crc).
+Proof.
+  intros Hf Hl Hm. split; [exact Hl|]. split; [exact Hm|]. right.
+  unfold attach_body. eexists. apply att_parse_fields, Hf.
+Qed.
+
+(* B4: two attachment records with arbitrary data (and arbitrary other fields): the call of Next that
+   meets one or the other ends with the same result and the same lexer state *)
+Theorem att_data_independent f pcap s evs a1 data1 crc1 a2 data2 crc2 rest e sk :
+  lo_cb lo <> CbFail ->
+  att_fields_ok a1 -> att_fields_ok a2 ->
+  blen (attach_body a1 data1 crc1) < two63 -> blen (attach_body a2 data2 crc2) < two63 ->
+  len_ok lo (blen (attach_body a1 data1 crc1)) -> len_ok lo (blen (attach_body a2 data2 crc2)) ->
+  next_forget (lex_next lo dstream f pcap
+     (set_cur (rd (frame OpAttachment (attach_body a1 data1 crc1) ++ rest) e sk) s) evs) =
+  next_forget (lex_next lo dstream f pcap
+     (set_cur (rd (frame OpAttachment (attach_body a2 data2 crc2) ++ rest) e sk) s) evs).
+Proof.
+  intros Hnf F1 F2 L1 L2 M1 M2.
+  apply att_next_same; [exact Hnf|apply attach_body_ok; assumption|apply attach_body_ok; assumption].
+Qed.
+
+End AttLex.
+
+(* ====================================================================================== *)
+(* Part C: attachments through the writer                                                  *)
+(* ====================================================================================== *)
+
+Definition max_blen (l : list bytes) : N := fold_right (fun p m => N.max (blen p) m) 0 l.
+Lemma max_blen_in p l : In p l -> blen p <= max_blen l.
+Proof.
+  induction l as [|x r IH]; intros H; [destruct H|]. cbn [max_blen fold_right].
+  destruct H as [->|H]; [lia|]. specialize (IH H). unfold max_blen in IH. lia.
+Qed.
+
+Lemma enc_attachment_fields_blen a :
+  blen (enc_attachment_fields a) = 32 + blen (a_name a) + blen (a_media a).
+Proof.
+  unfold enc_attachment_fields, blen. rewrite !app_length, !pstr_length, !u64_length. lia.
+Qed.
+
+(* the destination writes of one successful WriteAttachment call, oldest first *)
+Definition att_writes (a : attachment) (src : asrc) : list bytes :=
+  [frame_head OpAttachment ((blen (enc_attachment_fields a) + a_size a + 4) mod two64);
+   enc_attachment_fields a]
+  ++ as_frags src
+  ++ [u32 (crc32 (enc_attachment_fields a ++ concat (as_frags src)))].
+
+Section AttWriter.
+Variable o : wopts.
+Variable flt : option fault.
+
+Lemma dst_write_ok p s s' : dst_write o flt p s = (s', None) ->
+  w_out s' = p :: w_out s /\ w_nw s' = S (w_nw s).
+Proof.
+  unfold dst_write. destruct (match flt with Some _ => _ | None => false end); [discriminate|].
+  intros H; inversion H; subst. split; reflexivity.
+Qed.
+
+Lemma copy_frags_ok fr : forall n s s' n', copy_frags o flt fr n s = (s', None, n') ->
+  w_out s' = rev fr ++ w_out s /\ w_nw s' = (w_nw s + length fr)%nat.
+Proof.
+  induction fr as [|p r IH]; intros n s s' n' H; cbn [copy_frags] in H.
+  - inversion H; subst. cbn. split; [reflexivity|lia].
+  - destruct (dst_write o flt p s) as [s1 [e|]] eqn:E; [discriminate|].
+    apply dst_write_ok in E. destruct E as [E1 E2].
+    apply IH in H. destruct H as [H1 H2]. rewrite H1, H2, E1, E2. cbn [rev length].
+    rewrite <- app_assoc. split; [reflexivity|lia].
+Qed.
+
+Lemma wa_final_out (s4 : wstate) x y z :
+  w_out (s4 <| w_trace := x |> <| w_att_indexes := y |> <| w_st_attachments := z |>) = w_out s4.
+Proof. reflexivity. Qed.
+Lemma wa_final_nw (s4 : wstate) x y z :
+  w_nw (s4 <| w_trace := x |> <| w_att_indexes := y |> <| w_st_attachments := z |>) = w_nw s4.
+Proof. reflexivity. Qed.
+
+(* C1: every fragment of the source is handed to the destination as it is - one Write per fragment,
+   never concatenated - between two fixed-size writes and the 4-byte CRC *)
+Theorem write_attachment_writes a src s s' :
+  write_attachment o flt a src s = (s', None) ->
+  rev (w_out s') = rev (w_out s) ++ att_writes a src /\
+  w_nw s' = (w_nw s + 3 + length (as_frags src))%nat /\
+  a_size a = blen (concat (as_frags src)) /\ as_fail src = false.
+Proof.
+  unfold write_attachment.
+  destruct (dst_write o flt (frame_head OpAttachment _) s) as [s1 [e|]] eqn:E1; cbn [bindw]; [discriminate|].
+  destruct (dst_write o flt (enc_attachment_fields a) s1) as [s2 [e|]] eqn:E2; cbn [bindw]; [discriminate|].
+  destruct (copy_frags o flt (as_frags src) 0 s2) as [[s3 [e|]] n] eqn:E3; [discriminate|].
+  destruct (as_fail src) eqn:Ef; [discriminate|].
+  destruct (negb (n =? a_size a)) eqn:En; [discriminate|].
+  destruct (dst_write o flt (u32 _) s3) as [s4 [e|]] eqn:E4; cbn [bindw]; [discriminate|].
+  unfold log. cbn [bindw]. intros H. apply (f_equal fst) in H. cbn [fst] in H. rewrite <- H. clear H s'.
+  rewrite wa_final_out, wa_final_nw.
+  pose proof (copy_frags_count _ _ _ _ _ _ _ E3) as Hn.
+  apply dst_write_ok in E1, E2, E4. apply copy_frags_ok in E3.
+  destruct E1 as [A1 B1], E2 as [A2 B2], E3 as [A3 B3], E4 as [A4 B4].
+  rewrite A4, A3, A2, A1, B4, B3, B2, B1. unfold att_writes.
+  cbn [rev]. rewrite !rev_app_distr, rev_involutive. cbn [rev app]. rewrite <- !app_assoc. cbn [app].
+  split; [reflexivity|]. split; [lia|]. split; [lia|reflexivity].
+Qed.
+
+(* C2: the sizes of those writes: 9, the header fields (32 + name + media type), one per fragment with
+   exactly the fragment's length, 4.  Hence no single write is larger than
+   max (32 + name + media type) (largest fragment) *)
+Theorem att_writes_sizes a src :
+  map blen (att_writes a src) =
+  [9; 32 + blen (a_name a) + blen (a_media a)] ++ map blen (as_frags src) ++ [4].
+Proof.
+  unfold att_writes. rewrite !map_app. cbn [map]. rewrite frame_head_blen, enc_attachment_fields_blen.
+  unfold blen at 4. rewrite u32_length. reflexivity.
+Qed.
+
+Theorem att_writes_max a src :
+  Forall (fun p => blen p <= N.max (32 + blen (a_name a) + blen (a_media a)) (max_blen (as_frags src)))
+         (att_writes a src).
+Proof.
+  unfold att_writes. apply Forall_app. split; [|apply Forall_app; split].
+  - repeat constructor; [rewrite frame_head_blen; lia|rewrite enc_attachment_fields_blen; lia].
+  - apply Forall_forall. intros p Hp. apply max_blen_in in Hp. lia.
+  - repeat constructor. unfold blen at 1. rewrite u32_length. lia.
+Qed.
+
+(* the log of accepted writes only grows *)
+Lemma steps_out_ext s s' : steps o flt s s' -> exists l, w_out s' = l ++ w_out s.
+Proof.
+  induction 1 as [s s' H|p s|s1 s2 s3 _ IH1 _ IH2].
+  - exists []. destruct H as [H _]. exact H.
+  - unfold dst_write. destruct (match flt with Some _ => _ | None => false end); cbn [fst];
+      eexists [_]; reflexivity.
+  - destruct IH1 as [l1 E1], IH2 as [l2 E2]. exists (l2 ++ l1). rewrite E2, E1. apply app_assoc.
+Qed.
+
+End AttWriter.
+
+Section AttWriterRun.
+Variable o : wopts.
+Variable lib_id : bytes.
+Variable compress : nat -> bytes -> bytes.
+Variable flt : option fault.
+
+Lemma run_att_writes cs : forall s i a src n, length (w_out s) = w_nw s ->
+  nth_error cs i = Some (CAttachment a src) ->
+  nth_error (run_res o lib_id compress flt cs s) i = Some (None, n) ->
+  let m := writes_before (w_nw s) (run_res o lib_id compress flt cs s) i in
+  n = (m + 3 + length (as_frags src))%nat /\
+  firstn (n - m) (skipn m (rev (w_out (run_st o lib_id compress flt cs s)))) = att_writes a src /\
+  a_size a = blen (concat (as_frags src)).
+Proof.
+  induction cs as [|c r IH]; intros s i a src n HL Hc Hn; [destruct i; discriminate|].
+  cbn [run_res run_st] in *.
+  destruct i as [|i]; cbn [nth_error writes_before] in *.
+  - inversion Hc; subst c; clear Hc. cbn [step] in *.
+    destruct (write_attachment o flt a src s) as [s1 e1] eqn:E. cbn [fst snd] in *.
+    inversion Hn; subst; clear Hn.
+    apply write_attachment_writes in E. destruct E as (E1 & E2 & E3 & _).
+    split; [exact E2|]. split; [|exact E3].
+    destruct (steps_out_ext o flt _ _ (steps_run_st o lib_id compress flt r s1)) as [l El].
+    rewrite El, rev_app_distr, E1, <- app_assoc.
+    replace (w_nw s) with (length (rev (w_out s))) by (rewrite rev_length; exact HL).
+    rewrite skipn_app_exact.
+    replace (w_nw s1 - length (rev (w_out s)))%nat with (length (att_writes a src)).
+    + apply firstn_app_exact.
+    + rewrite rev_length, HL, E2. unfold att_writes. rewrite !app_length. cbn [length]. lia.
+  - pose proof (J_step o lib_id compress flt c s) as HJ.
+    assert (HL' : length (w_out (fst (step o lib_id compress flt c s))) = w_nw (fst (step o lib_id compress flt c s))).
+    { eapply steps_out_len; [apply J_steps, HJ|exact HL]. }
+    specialize (IH (fst (step o lib_id compress flt c s)) i a src n HL' Hc Hn).
+    destruct i as [|i]; cbn [writes_before nth_error] in *; exact IH.
+Qed.
+
+End AttWriterRun.
+
+(* C3: the same at the level of W: the destination writes made by the i-th call, when that call is a
+   WriteAttachment that returned nil *)
+Theorem W_attachment_writes o lib comp flt cs i a src n :
+  let R := W o lib comp flt cs in
+  let n0 := w_nw (fst (new_writer (effective_opts o) flt)) in
+  nth_error cs i = Some (CAttachment a src) ->
+  nth_error (r_calls R) i = Some (None, n) ->
+  let m := writes_before n0 (r_calls R) i in
+  n = (m + 3 + length (as_frags src))%nat /\
+  firstn (n - m) (skipn m (r_writes R)) = att_writes a src /\
+  a_size a = blen (concat (as_frags src)).
+Proof.
+  intros R n0 Hc Hn m. subst R n0 m. revert Hn. rewrite W_unfold.
+  pose proof (J_new_writer (effective_opts o) flt) as HJ.
+  destruct (new_writer (effective_opts o) flt) as [s [e|]] eqn:E; cbn [fst r_new r_calls r_writes].
+  { destruct i; discriminate. }
+  intros Hn.
+  assert (HL : length (w_out s) = w_nw s).
+  { apply J_steps in HJ. cbn [fst] in HJ. eapply steps_out_len; [exact HJ|reflexivity]. }
+  exact (run_att_writes (effective_opts o) lib comp flt cs s i a src n HL Hc Hn).
+Qed.
+
+(* ====================================================================================== *)
+(* Part D: concrete inputs for the examples of properties/C20_seq.v                        *)
+(* ====================================================================================== *)
+
+(* an attachment with n data bytes; name "na", media type "m" *)
+Definition sq_att (n : nat) : attachment :=
+  {| a_log := 1; a_create := 2; a_name := [x6e; x61]; a_media := [x6d]; a_size := N.of_nat n; a_data := [] |}.
+Definition sq_data (n : nat) : bytes := repeat x41 n.
+Definition sq_att_body (n : nat) : bytes :=
+  attach_body (sq_att n) (sq_data n) (crc32 (enc_attachment_fields (sq_att n) ++ sq_data n)).
+(* what follows the attachment: a chunk with two messages, a message, footer, magic *)
+Definition sq_tail : bytes :=
+  frame OpChunk (ex_chunk_body (blen ex_records) 0 [] (blen ex_records) ex_records)
+  ++ LexerFactsA.ex_msg [x64]
+  ++ frame OpFooter (enc_footer {| f_summary_start := 0; f_summary_offset_start := 0; f_crc := 0 |})
+  ++ magic.
+Definition sq_file (n : nat) : bytes := magic ++ ex_hdr ++ frame OpAttachment (sq_att_body n) ++ sq_tail.
+Definition sq_run (cb : cbmode) (n : nat) : outcome (list event * err * lstate) :=
+  lex_all (ex_lo true cb 0 0) id_oracle 500 (ex_rdr (sq_file n) None false).
+(* lengths of the data seen by the attachment callbacks of a run *)
+Definition sq_att_data_lens (x : outcome (list event * err * lstate)) : list N :=
+  match x with
+  | Ok (evs, _, _) => flat_map (fun ev => match ev with EvAttachment ob => [blen (ao_data ob)] | _ => [] end) evs
+  | _ => []
+  end.
+Definition sq_state0 : lstate :=
+  {| lx_base := ex_rdr [] None false; lx_chunk := None; lx_ubuf := 0; lx_bufcap := 32; lx_allocs := [7] |}.
+
+(* a chunk record with a 30-byte compression name handled by a caller-supplied decompressor *)
+Definition sq_comp : bytes := repeat x63 30.
+Definition sq_lo_custom (validate : bool) : lopts :=
+  {| lo_skip_magic := false; lo_validate := validate; lo_compute_acrc := false;
+     lo_emit_chunks := false; lo_emit_invalid := false; lo_max_record := 0;
+     lo_max_chunk := 0; lo_cb := CbNone; lo_custom := [sq_comp] |}.
+Definition sq_chunk_rec : bytes :=
+  frame OpChunk (ex_chunk_body (blen ex_records) 0 sq_comp (blen ex_records) ex_records).
+
+(* writer: an attachment whose 13 data bytes arrive as three fragments of 5, 1 and 7 bytes *)
+Definition sq_watt : attachment :=
+  {| a_log := 7; a_create := 8; a_name := [x61; x62]; a_media := [x63]; a_size := 13; a_data := [] |}.
+Definition sq_src3 : asrc :=
+  {| as_frags := [repeat x01 5; [x02]; repeat x03 7]; as_fail := false |}.
+Definition sq_cs : list wcall :=
+  [CHeader {| h_profile := []; h_library := [] |}; CAttachment sq_watt sq_src3; CClose].
+Definition sq_R : wresult := W ex_o ex_lib ex_comp None sq_cs.
